@@ -371,6 +371,9 @@ def oracle_parse(case):
         if first is not None or last is not None:
             _check_flat(log, exp['runs'], case['flat'], first, last, labels)
             labels.add('flat_sliced')
+        # flattening must leave the per-run records as they were, and give the same answer when asked again
+        _check_log_object(log, exp, 'after flatten: Log(%s)' % case['input'])
+        _check_flat(log, exp['runs'], case['flat'], None, None, labels)
     return labels
 
 
@@ -419,6 +422,7 @@ def oracle_history(case):
             if model['runs']:
                 for style in ('first', 'last', 'all'):
                     _check_flat(log, model['runs'], style, None, None, labels)
+                _check_log_object(log, model, 'after flatten following op %d' % k)
     labels.add('ops%d' % len(case['ops']))
     if len(case['ops']) >= 2:
         labels.add('multi')
